@@ -6,7 +6,7 @@
    (key, cell) entries; [ord] is Go's map iteration order per round (any permutation); [breaker] the optional tie-breaker
    (any function). *)
 From Coq Require Import List ZArith Bool Permutation Sorted.
-From V Require Import Model.Dp Model.Clique Proofs.DpKnapsack Proofs.DpSolvers Proofs.DpBest Proofs.DpJudge Proofs.DpPool Proofs.CliqueBK.
+From V Require Import Model.Dp Model.Clique Proofs.DpKnapsack Proofs.DpSolvers Proofs.DpBest Proofs.DpJudge Proofs.DpPool Proofs.CliqueBK Proofs.CliqueSpec.
 Import ListNotations.
 Local Open Scope Z_scope.
 
@@ -111,3 +111,12 @@ Theorem c18_bron_kerbosch_exact : forall g n, sym g -> irrefl g -> forall order,
     nodupS cs.
 Proof. exact bron_kerbosch_exact. Qed.
 Print Assumptions c18_bron_kerbosch_exact.
+(* the brute-force list that Run/C18.v compares the implementation with = the ascending vertex lists of the maximal cliques *)
+Theorem c18_spec_cliques_meaning : forall g n C, In C (spec_cliques g n) <-> StronglySorted lt C /\ maxcliqueP g n C.
+Proof. exact spec_cliques_meaning. Qed.
+Print Assumptions c18_spec_cliques_meaning.
+(* and, in the canonical form both sides of the run are brought to, the model's answer equals it for every vertex order *)
+Theorem c18_cliques_model_eq_spec : forall g n, sym g -> irrefl g -> forall order, Permutation order (seq 0 n) ->
+  exists cs, max_cliques g order = Some cs /\ canon cs = canon (spec_cliques g n).
+Proof. exact cliques_model_eq_spec. Qed.
+Print Assumptions c18_cliques_model_eq_spec.
